@@ -154,7 +154,7 @@ fn all_seeds_prof(alphabet: Vec<Op>, tiny_depth: usize, q: bool) -> Profile {
 /// The same without the two very large seeds (crash / damage / fault engines).
 fn light_seeds_prof(alphabet: Vec<Op>, tiny_depth: usize, q: bool) -> Profile {
     let seeds = if TINY { all_seeds_light() } else { thin(all_seeds_light(), 4, q) };
-    prof("every seed but the two largest x alphabet (shallow)", seeds, alphabet, if TINY { tiny_depth } else { 1 })
+    prof("every seed but the three largest x alphabet (shallow)", seeds, alphabet, if TINY { tiny_depth } else { 1 })
 }
 
 fn prof(name: &str, seeds: Vec<Seed>, alphabet: Vec<Op>, depth: usize) -> Profile {
@@ -521,7 +521,7 @@ pub fn run(part: &mut Part) {
                 let pprofiles = vec![prof("seed closed, newest file emptied (created, not yet sized), reopened x (A_write + Persist + XL)", pseeds, palpha, if TINY { if q { 2 } else { 3 } } else { 1 })];
                 let mut pcfgs = vec![];
                 for cut in [0usize] {
-                    for policy in [PolicyCfg::AlwaysFsync, PolicyCfg::DoNothing, PolicyCfg::AlwaysFlush] {
+                    for policy in if q { vec![PolicyCfg::AlwaysFsync, PolicyCfg::DoNothing] } else { vec![PolicyCfg::AlwaysFsync, PolicyCfg::DoNothing, PolicyCfg::AlwaysFlush] } {
                         for power_loss in [false, true] {
                             pcfgs.push(CrashCfg { property: "C03", oracle: Oracle::C03, policy, hash_seed: 0, power_loss, second_crash: false, cont_struct: 0, cont_other: 0, initial_open: false, pre_cut_last_file: Some(cut) });
                         }
